@@ -13,7 +13,8 @@ import shutil
 import subprocess
 import tempfile
 
-SEEDED = '/verif/seeded'
+ROOT = os.path.dirname(os.path.dirname(os.path.abspath(__file__)))      # the checkout this tool lives in (a vp-run snapshot works too)
+SEEDED = os.path.join(ROOT, 'seeded')
 
 
 def sh(cmd, **kw):
@@ -23,7 +24,7 @@ def sh(cmd, **kw):
 def job(a):
     seed, tier, vseed, checks = a
     meta = json.load(open(f'{SEEDED}/{seed}/meta.json'))
-    wt = f'/tmp/rc-{seed}'
+    wt = f'/tmp/rc-{os.getpid()}-{seed}'
     on = 'HEAD'
     sh(f'rm -rf {wt}; git -C /repo worktree prune; git -C /repo worktree add -q --detach {wt} HEAD')
     if sh(f'git apply {SEEDED}/{seed}/patch.diff', cwd=wt).returncode != 0:
@@ -39,7 +40,7 @@ def job(a):
     rcs, mech = {}, ''
     for c in checks or [seed[:3]]:
         try:
-            r = subprocess.run(['/venv/bin/python', '-m', 'nvf.run', c, tier], cwd='/verif', env=env, capture_output=True, text=True, timeout=3000)
+            r = subprocess.run(['/venv/bin/python', '-m', 'nvf.run', c, tier], cwd=ROOT, env=env, capture_output=True, text=True, timeout=3000)
             rcs[c] = r.returncode
             if c == seed[:3]:
                 mech = ';'.join(l.strip()[:220] for l in r.stdout.splitlines() if 'violated:' in l or 'INCONCLUSIVE' in l)[:700]
